@@ -497,9 +497,7 @@ func (x *Exec) doUnOp(st *State, fr *Frame, v *ssa.UnOp) {
 			t = st.name(v.Name(), t)
 			res.T = t
 			st.assume(typingFact(v.Type(), t))
-			if isPointerLike(v.Type()) {
-				st.assume(app(SBool, "<", t, st.next))
-			}
+			x.assumeAllocated(st, v.Type(), t)
 		}
 		if fv, ok := st.closures[t.S]; ok {
 			res.fn = fv
